@@ -224,7 +224,7 @@ def main():
     if replay:
         runs = [r for r in runs if r.get("mode", "") == replay.get("mode", "")]
     for run in runs:
-        binpath, err = build(spec["engine"], run.get("race", False), spec.get("requires"))
+        binpath, err = build(run.get("engine", spec["engine"]), run.get("race", False), spec.get("requires"))
         if binpath is None:
             log(err[-4000:])
             merged["inconclusive"].append("harness does not build against the working tree (mode %s)" % run.get("mode", ""))
